@@ -14,6 +14,8 @@ if name == 'base':
 else:
     ov = apply_unified(base, open(os.path.join(HERE, name, 'patch.diff')).read())
     prog = Program(overrides=ov)
+from pjx.normal import normalised
+prog = normalised(prog)
 known = {(k['rule'], k['function'], k['construct']) for k in load_known() if k.get('status') == 'known'}
 for p in sys.argv[2:]:
     mod = importlib.import_module(f'pjx.props.{p.lower()}')
